@@ -144,6 +144,21 @@ PROPERTIES = {
         not_decided=['HTML and sitemap scrapers (lxml / html5lib cannot be imported in this sandbox): not examined', 'FTP client Session.start/download_listing bodies (asyncio.wait_for, '
                      'TextIOWrapper): only their callees are under contract', 'RobotsTxtChecker: C20'],
     ),
+    'C19': dict(
+        modules=['decompression'], level='proof', bounded=['c19_stream.py'],
+        claim='Over an axiomatised zlib (streaming law: a decompressobj\'s total output, failure and end-of-stream flag are functions of the concatenated input and the window '
+              'bits) the real wrappers are proved segmentation-independent: after any sequence of non-empty pieces and the final flush, GzipDecompressor has returned in total '
+              'z(31, input) when the stream starts with 0x1f and the input itself otherwise; DeflateDecompressor has returned z(w, input) with w chosen from the first two bytes '
+              'of the STREAM (valid zlib header: 15, else raw deflate -15; fewer than two bytes in total: raw) -- both are functions of the concatenated input only, hence equal '
+              'to the one-piece result; every piece is forwarded to zlib exactly once and in order; flush raises zlib.error exactly when the end-of-stream marker was not '
+              'reached (truncated input is never returned as content), and nothing but zlib.error escapes. Stream._decompress_data/_flush_decompressor turn zlib.error into '
+              'ProtocolError and the body readers feed every piece once and flush once (C04/C08/C09 obligations). Two genuine defects were repaired (fix: commits).',
+        note='assumed: the streaming law of zlib and z(w, b"") == b""; pieces handed to the decoders are non-empty (Stream never forwards an empty read: proved in '
+             'specs/httpstream.py by the `if not data: break` paths). Bounded stand-in c19_stream.py (labelled bounded) validates the axioms against the real zlib: same-class '
+             'one-shot versus all <=2-cut segmentations, single bytes and seeded cuts, truncation at 32 offsets, seeded bit flips, through the real Stream.read_body.',
+        not_decided=['the sniffing rules are pinned to "first byte 0x1f" (gzip) and "first two bytes are a valid zlib header" (RFC 1950): another prefix-based rule would keep '
+                     'the streaming/one-shot equality but is reported for review', 'multi-member gzip streams: only the first member is decoded (zlib behaviour), not examined'],
+    ),
     'C20': dict(
         modules=['filters', 'rule', 'robots'], level='proof', bounded=['c20_nofollow.py'],
         claim='RobotsTxtPool as a map from origin key (scheme, host, port) to the loaded rules: has_parser / can_fetch / load_robots_txt read and write exactly the entry of '
